@@ -393,6 +393,10 @@ func c11Run(c *Ctx) {
 						c.Res.Evaluations++
 						c.Outcome(o)
 						n++
+						if gi == 0 && n%50 == 0 && len(c.Conform) < 20 && o == "ok" {
+							raw, _ := json.Marshal(cs)
+							c.Conform = append(c.Conform, ConformRec{Case: raw, Obs: o})
+						}
 						if n%2000 == 1 {
 							c.Sample(cs)
 						}
